@@ -2120,8 +2120,8 @@ class C14(Prop):
                     b = a                 # no model of the engine
                 else:
                     want = text_oracle('char' if inst == 'gr' else inst, pname, params, toks)
-                    if inst == 'gr' or pname in ('ws_b', 'iws_b', 'ws_x'):
-                        b = a             # no model of its own (grapheme instance / bounded whitespace): oracle only
+                    if inst == 'gr':
+                        b = a             # the grapheme instance has no model of its own: oracle only
                 want_s = 'none' if want is None else 'ok %d %d %d' % want
                 obs[(cid[:-1], inst, k)] = (a, toks, pname, params)
                 if a != want_s:
